@@ -33,6 +33,11 @@ def judge_sub(val, b, en, quoted, marker, plen, locale):
     head, before, matched = quoted[:plen], val[ls + lead:b], val[b:min(en, le)]
     if not mbtext.oracle_defined(head + before + matched + val[min(en, le):min(en, le) + 1], locale):
         return [], 'no-verdict'
+    if locale != 'C':
+        # offsets inside a character (never produced by regexec on well-formed text) have no column of their own
+        bd = set(mbtext.boundaries(val, locale))
+        if b not in bd or min(en, le) not in bd:
+            return [], 'no-verdict'
     # independent column oracle (tools/mbtext.py): display widths from a table of characters, not from the C library
     probs = mbtext.judge_markers(head, before, matched, marker, locale, open_end=en > le)
     if probs and any(c >= 128 for c in head) and locale != 'C':
@@ -222,9 +227,6 @@ def judge_inspect(c, locale):
         head = pre if i == 0 else b' ' * len(pre)
         if quoted[:len(head)] != head:
             probs.append('explanation %d does not begin with %r: %r' % (i, head[:40], quoted[:60]))
-            continue
-        if not c.aligned and i == 0 and locale != 'C':
-            # offsets inside a character have no column of their own: compared with the model only
             continue
         p2, k2 = judge_sub(c.val, b, e, quoted, marker, len(head), locale)
         if k2 == 'no-verdict':
@@ -516,15 +518,26 @@ def run(rep):
         rep.violation({'obligation': 'correspondence matches_inspect/expr_inspect <-> Model/Inspect.lean (dry-run text)', 'disagreements': len(corr_bad),
                        'examples': [dict(c.readable(), implementation=c.impl[-900:], model=(c.model or '')[-900:]) for c in corr_bad[:4]]}, False)
     vlib.lean_conclude(rep)
+    rep.assumptions += ['locales C and C.utf8 (no other locale is installed in this image)',
+                        'display width of a control character (TAB, ESC, C1) = 0 columns, as wcwidth() and strnwidth() have it; of a byte that is no '
+                        'UTF-8 = 1 column; no verdict of the column oracle on sequences whose rendering depends on the decoder (truncated, '
+                        'overlong, surrogate, beyond U+10FFFF) and on offsets inside a character']
     rep.coverage.update({
-        'evaluations': len(cases) + len(pres),
-        'distinct_nontrivial': nmark,
+        'evaluations': len(cases) + len(cases_u) + len(pres) + ist['cases'] + 4 * lst['configurations'],
+        'distinct_nontrivial': nmark + ist['marker_lines_judged'] + lst['marker_lines_judged'],
         'rule': '%d generated rule trees x messages (capture groups, multi-line bodies, folded and encoded headers, date conditions) evaluated '
                 'with the dry-run flag by the real parser/evaluator/matches_inspect: the printed text is compared byte for byte with the model, '
                 'every "-> destination" line with the action entry, every explanation with the value, offsets and line the implementation '
                 'itself recorded (quoted line is a line of the value, ^ under the first and $ under the last matched character); %d '
                 'configurations run with -d and then for real on the real binary (listed messages = messages acted on, same destinations, '
-                'announced rewrites/discards/execs happen, unlisted untouched); non-trivial = marker lines judged' % (n, len(pres)),
+                'announced rewrites/discards/execs happen, unlisted untouched); locales: %d of the generated cases carry multibyte text '
+                '(wide, zero-width, 2-4 byte characters, stray 8-bit bytes, encoded words) and are evaluated a second time under '
+                'LC_ALL=C.utf8; %d generated (value, sub-match offsets) cases through the real expr_inspect under LC_ALL=C and C.utf8, text '
+                'compared with the model (strnwidth over the platform mbtowc/wcwidth, same locale) and every marker line judged by an '
+                'independent column oracle (own table of character widths); %d single-rule configurations (header and body patterns '
+                'sensitive to multibyte handling) x %d messages on the real binary with -d and for real under both locales (listed = moved = '
+                'what regexec under that locale says on the decoded value; marker lines judged by the column oracle); non-trivial = marker '
+                'lines judged' % (n, len(pres), len(cases_u), ist['cases'], lst['configurations'], lst['messages_each']),
         'samples': [dict(c.readable(), dry_run_output=(ec.impl_dry_text(c) or b'').decode('latin-1')[:400]) for c in cases if c.impl and c.impl.startswith('MATCH')][:2],
         'marker_lines_checked': nmark,
         'multibyte_cases_under_C_utf8': len(cases_u),
